@@ -256,6 +256,10 @@ def _eval_order(body, F=None, depth=0):
                 if hb is not None:
                     out.extend(_eval_order(hb, F, depth + 1))
             return
+        if k == "Zst" and n.get("fn") and (n["fn"].get("krate") == "mqtt_proto" or (F is not None and (n["fn"].get("res") or n["fn"].get("def")) in F.fns)):
+            # a function of the crate passed as a value (`.and_then(TopicName::try_from)`): it runs when the call that receives it does
+            out.append(("call", n["fn"].get("res") or n["fn"].get("def") or "?", n))
+            return
         if k == "Adt" and n.get("adt") in ERR_ADTS and n["variant"] != "Common":
             for f in n["fields"]:
                 rec(f["e"])
